@@ -234,6 +234,8 @@ class CallMixin:
         if isinstance(v, Opt):
             return b_and(b_not(v.isnone), self.isinstance_of(v.v, t, st))
         if t in ('np.ndarray', 'numpy.ndarray'):
+            if isinstance(v, Seq):
+                return bool(v.nd)
             if isinstance(v, Ref):
                 o = st.heap[v.oid]
                 return isinstance(o, ArrObj) and o.pykind == 'ndarray'
@@ -584,6 +586,19 @@ class CallMixin:
             names = list(c.params)
             bound = dict(zip(names, args))
             bound.update(kwargs)
+        # a **kwargs parameter described key by key: keys the caller omits take the callee's defaults
+        for pn, pd in c.params.items():
+            if isinstance(pd, dict) and isinstance(bound.get(pn), dict):
+                full = dict(bound[pn])
+                keys = list(pd)
+                for case in (c.cases or []):
+                    cd = case.get('params', {}).get(pn)
+                    if isinstance(cd, dict):
+                        keys += [k_ for k_ in cd if k_ not in keys]
+                for key in keys:
+                    if key not in full:
+                        full[key] = getattr(c, 'kwdefaults', {}).get(key)
+                bound[pn] = full
         if getattr(self, 'frame_only', False):
             # frame analysis: only the callee's write set matters
             for a in c.assigns:
@@ -606,9 +621,8 @@ class CallMixin:
         try:
             for g, text in c.bind.items():
                 ghost[g] = self.eval_spec(text, cs)
-                if getattr(ghost[g], 'defs', None):
-                    raise Unsupported('callee contract %s binds a named specification context; call sites need '
-                                      'distinct names (not implemented)' % c.name)
+                for d_ in (getattr(ghost[g], 'defs', None) or ()):
+                    st.assume(d_)          # names of the callee's specification context (fresh per evaluation)
             for n_, r in enumerate(c.requires):
                 self.oblige('requires', self.eval_spec(r, cs), st, node,
                             'precondition of %s: %s' % (c.name, r), detail='%s.%d+%d' % (
